@@ -2,7 +2,7 @@
 """Confirm a seeded change independently and keep it under /verif/seeded/<name>/.
 usage: keep_seed.py <name e.g. C09-1> <demo dir> <worktree> <check id> [more check ids]
 Steps: baseline with the change (must be 3015/3015), demo with the change (must fail), demo
-without (git stash; must pass), then apply the patch to /repo, run ./check <id> (record exit
+without (git apply -R; must pass), then apply the patch to /repo, run ./check <id> (record exit
 code and VIOLATION lines), undo. Everything is recorded in meta.json."""
 import json, os, shutil, subprocess, sys
 name, demo, wt = sys.argv[1:4]
@@ -21,9 +21,9 @@ rc, out = run("python3 %s/tools/baseline.py %s" % (V, wt)); res["baseline_with_c
 runsh = os.path.join(demo, "run.sh")
 democmd = "sh " + runsh if os.path.exists(runsh) else meta.get("demo_cmd")
 rc1, out1 = run(democmd); res["demo_with_change"] = {"exit": rc1, "tail": out1[-600:]}
-run("git -C %s stash" % wt)
+run("git -C %s apply -R %s" % (wt, os.path.join(demo, "patch.diff")))
 rc2, out2 = run(democmd); res["demo_without_change"] = {"exit": rc2, "tail": out2[-300:]}
-run("git -C %s stash pop" % wt)
+run("git -C %s apply %s" % (wt, os.path.join(demo, "patch.diff")))
 res["confirmed"] = ("3015, passing now: 3015" in res["baseline_with_change"]) and rc1 != 0 and rc2 == 0
 # run our checks against it
 rc, out = run("git -C /repo apply %s" % os.path.join(demo, "patch.diff"))
